@@ -537,25 +537,289 @@ Lemma gd_description n : gd false n (fun fl => description fl).
 Proof. unfold description. gd_tac. Qed.
 #[export] Hint Resolve gd_description : gd.
 
+(* bind whose continuation is good at the length that actually remains *)
+Lemma good_bind_gen {A B} n (M : nat -> P A) (K : A -> nat -> P B) :
+  good n M ->
+  (forall fl ts a r, length ts <= n -> M fl ts = ROk a r -> good (length r) (K a)) ->
+  good n (fun fl => bind (M fl) (fun a => K a fl)).
+Proof.
+  intros GM GK. constructor; unfold bind.
+  - intros fl ts Hl. destruct (M fl ts) as [a r| |] eqn:E.
+    + apply (g_fuel _ _ (GK _ _ _ _ Hl E)). lia.
+    + discriminate.
+    + exfalso. eapply (g_fuel _ _ GM); eauto.
+  - intros fl ts b r Hl. destruct (M fl ts) as [a' r'| |] eqn:E; try discriminate. intros E2.
+    pose proof (g_suf _ _ GM _ _ _ _ Hl E) as S1.
+    eapply suffix_trans; [|exact S1]. eapply (g_suf _ _ (GK _ _ _ _ Hl E)); eauto.
+  - intros fl ts e Hl. destruct (M fl ts) as [a' r'| |] eqn:E; try discriminate.
+    + intros E2. pose proof (g_suf _ _ GM _ _ _ _ Hl E) as S1. apply suffix_length in S1.
+      apply (g_err _ _ (GK _ _ _ _ Hl E)) in E2; lia.
+    + intros E2. inversion E2; subst. eapply (g_err _ _ GM); eauto.
+  - intros fl ts Hl Ho. pose proof (g_sim _ _ GM fl ts Hl Ho) as SM. unfold simc in SM.
+    destruct (M 0 ts) as [a r| |] eqn:E0.
+    + pose proof (GK _ _ _ _ Hl E0) as GKa.
+      destruct SM as [[Ho' ->]|[Hn ->]].
+      * apply (g_sim _ _ GKa); [lia|exact Ho'].
+      * unfold simc. destruct (K a 0 r) as [b r'| |] eqn:E1.
+        -- right. split; [|reflexivity]. eapply not_okst_suffix; [exact Hn|].
+           eapply (g_suf _ _ GKa); eauto.
+        -- right. split; [reflexivity|].
+           apply (g_err _ _ GKa) in E1; [|lia].
+           assert (length r <= fl); [|lia].
+           destruct (Nat.le_gt_cases (length r) fl); [assumption|]. exfalso. apply Hn. left. assumption.
+        -- exact I.
+    + cbn. destruct SM as [->|[-> Hle]]; [left; reflexivity|right; split; [reflexivity|exact Hle]].
+    + exact I.
+Qed.
+
+Lemma eot_true fl k ts r : k <> K_EOF -> expect_optional_token fl k ts = ROk true r -> length r < length ts.
+Proof.
+  intros Hk. unfold expect_optional_token, bind, cur.
+  destruct ts as [|t ts']; cbn [tok_at].
+  - change (fst eof_tok) with K_EOF. destruct (K_EOF =? k)%N eqn:E; [apply N.eqb_eq in E; congruence|].
+    unfold ret. discriminate.
+  - destruct (fst t =? k)%N eqn:E; [|unfold ret; discriminate]. apply N.eqb_eq in E.
+    destruct (adv fl (t :: ts')) as [u r1| |] eqn:Ea; try discriminate.
+    apply adv_strict in Ea; [|apply N.eqb_neq; congruence]. subst r1.
+    unfold ret. intros H; inversion H; subst. cbn. lia.
+Qed.
+
+(* expect_optional_token: the `true` continuation runs on a shorter list *)
+Lemma gd_bind_opt {B} s k n (K : bool -> nat -> P B) :
+  k <> K_EOF -> (forall m, m < n -> gd s m (K true)) -> gd s n (K false) ->
+  gd s n (fun fl => bind (expect_optional_token fl k) (fun b => K b fl)).
+Proof.
+  intros Hk GT GF.
+  assert (GK : forall fl ts a r, length ts <= n -> expect_optional_token fl k ts = ROk a r ->
+                                 gd s (length r) (K a)).
+  { intros fl ts a r Hl E. destruct a.
+    - apply GT. apply eot_true in E; [lia|exact Hk].
+    - destruct (gd_expect_optional_token k n) as [G _]. apply (g_suf _ _ G) in E; [|exact Hl].
+      apply suffix_length in E. eapply gd_le; [exact GF|lia]. }
+  split.
+  - apply good_bind_gen; [apply gd_expect_optional_token|].
+    intros fl ts a r Hl E. apply (GK fl ts a r Hl E).
+  - intros Es fl ts b r Hl. unfold bind.
+    destruct (expect_optional_token fl k ts) as [a r1| |] eqn:E; try discriminate. intros E2.
+    pose proof (GK _ _ _ _ Hl E) as [Ga Sa].
+    destruct (gd_expect_optional_token k n) as [G _]. pose proof (g_suf _ _ G _ _ _ _ Hl E) as S1.
+    apply suffix_length in S1.
+    apply (Sa Es) in E2; lia.
+Qed.
+
 Lemma gd_type_ref : forall f n, n < f -> gd true n (fun fl => type_ref fl f).
 Proof.
   induction f as [|f IH]; intros n Hn; [lia|].
   cbn [type_ref].
-  (* case split on the current token so that the consumed bracket is visible *)
-  split.
-  - assert (G : gd false n (fun fl => type_ref fl (S f))).
-    { cbn [type_ref]. unfold expect_optional_token at 1.
-      assert (E : forall fl, (b <- (t <- cur ;; (if (fst t =? K_BRACKET_L)%N then adv fl ;;; ret true else ret false)) ;;
-                  t <- (if b then i <- type_ref fl f ;; expect_token fl K_BRACKET_R ;;; ret (Nd KListType [ANode i]) else named_type fl) ;;
-                  bang <- expect_optional_token fl K_BANG ;; ret (if bang then Nd KNonNullType [ANode t] else t))
-                = (t0 <- cur ;;
-                   if (fst t0 =? K_BRACKET_L)%N
-                   then expect_token fl K_BRACKET_L ;;; t <- (i <- type_ref fl f ;; expect_token fl K_BRACKET_R ;;; ret (Nd KListType [ANode i])) ;;
-                        bang <- expect_optional_token fl K_BANG ;; ret (if bang then Nd KNonNullType [ANode t] else t)
-                   else t <- named_type fl ;;
-                        bang <- expect_optional_token fl K_BANG ;; ret (if bang then Nd KNonNullType [ANode t] else t))).
-      { intros fl. apply functional_extensionality_hack. }
-      admit. }
-    exact (proj1 G).
-  - admit.
-Abort.
+  apply (gd_bind_opt true K_BRACKET_L n
+           (fun b fl => t <- (if b then i <- type_ref fl f ;; expect_token fl K_BRACKET_R ;;; ret (Nd KListType [ANode i])
+                              else named_type fl) ;;
+                        bang <- expect_optional_token fl K_BANG ;;
+                        ret (if bang then Nd KNonNullType [ANode t] else t))); [discriminate| |].
+  - intros m Hm. apply gd_bind_l; [|intros; gd_tac].
+    apply gd_bind_l; [apply IH; lia|]. intros; gd_tac.
+  - gd_tac.
+Qed.
+
+Lemma gd_type_reference n : gd true n (fun fl => type_reference fl).
+Proof.
+  unfold type_reference. apply (gd_with_fuel true (fun fl f => type_ref fl f)).
+  intros f m Hm _. apply gd_type_ref. exact Hm.
+Qed.
+#[export] Hint Resolve gd_type_reference : gd.
+
+(* ---------- arguments, directives ---------- *)
+Lemma gd_argument c n : gd true n (fun fl => argument fl c).
+Proof. unfold argument. gd_tac. Qed.
+#[export] Hint Resolve gd_argument : gd.
+Lemma gd_arguments c n : gd false n (fun fl => arguments fl c).
+Proof. unfold arguments. gd_tac. Qed.
+#[export] Hint Resolve gd_arguments : gd.
+Lemma gd_fragment_argument n : gd true n (fun fl => fragment_argument fl).
+Proof. unfold fragment_argument. gd_tac. Qed.
+#[export] Hint Resolve gd_fragment_argument : gd.
+Lemma gd_fragment_arguments n : gd false n (fun fl => fragment_arguments fl).
+Proof. unfold fragment_arguments. gd_tac. Qed.
+#[export] Hint Resolve gd_fragment_arguments : gd.
+Lemma gd_directive c n : gd true n (fun fl => directive fl c).
+Proof. unfold directive. gd_tac. Qed.
+#[export] Hint Resolve gd_directive : gd.
+Lemma gd_directives c n : gd false n (fun fl => directives fl c).
+Proof.
+  unfold directives. apply gd_bind_f; [|intros; apply gd_ret].
+  apply (gd_with_fuel false (fun fl f => while_peek f K_AT (directive fl c))).
+  intros f m Hm _. apply gd_while_peek; [exact Hm|]. intros; apply gd_directive.
+Qed.
+#[export] Hint Resolve gd_directives : gd.
+
+(* ---------- selection sets ---------- *)
+Lemma gd_fragment_name n : gd true n (fun fl => fragment_name fl).
+Proof. unfold fragment_name. gd_tac. Qed.
+#[export] Hint Resolve gd_fragment_name : gd.
+
+Lemma gd_field (SS : nat -> P node) n :
+  (forall m, m < n -> gd false m SS) -> gd true n (fun fl => field fl (SS fl)).
+Proof. intros H. unfold field. gd_tac. Qed.
+
+Lemma gd_fragment xfa (SS : nat -> P node) n :
+  (forall m, m < n -> gd false m SS) -> gd true n (fun fl => fragment fl xfa (SS fl)).
+Proof. intros H. unfold fragment. gd_tac. Qed.
+
+Lemma gd_selection xfa (SS : nat -> P node) n :
+  (forall m, m < n -> gd false m SS) -> gd true n (fun fl => selection fl xfa (SS fl)).
+Proof.
+  intros H. unfold selection. apply gd_bind_r; [apply gd_cur|]. intros t.
+  destruct (fst t =? K_SPREAD)%N; [apply gd_fragment|apply gd_field]; exact H.
+Qed.
+
+Lemma gd_sel_set xfa : forall f n, n < f -> gd true n (fun fl => sel_set fl xfa f).
+Proof.
+  induction f as [|f IH]; intros n Hn; [lia|].
+  cbn [sel_set]. apply gd_bind_l; [|intros; apply gd_ret].
+  apply gd_many; [discriminate|]. intros m Hm. apply gd_selection.
+  intros m' Hm'. apply gd_weaken. apply IH. lia.
+Qed.
+
+Lemma gd_selection_set xfa n : gd true n (fun fl => selection_set fl xfa).
+Proof.
+  unfold selection_set. apply (gd_with_fuel true (fun fl f => sel_set fl xfa f)).
+  intros f m Hm _. apply gd_sel_set. exact Hm.
+Qed.
+#[export] Hint Resolve gd_selection_set : gd.
+
+(* ---------- operations, fragments ---------- *)
+Lemma gd_variable_definition n : gd true n (fun fl => variable_definition fl).
+Proof. unfold variable_definition. gd_tac. Qed.
+#[export] Hint Resolve gd_variable_definition : gd.
+Lemma gd_variable_definitions n : gd false n (fun fl => variable_definitions fl).
+Proof. unfold variable_definitions. gd_tac. Qed.
+#[export] Hint Resolve gd_variable_definitions : gd.
+Lemma gd_operation_type n : gd true n (fun fl => operation_type fl).
+Proof. unfold operation_type. gd_tac. Qed.
+#[export] Hint Resolve gd_operation_type : gd.
+Lemma gd_operation_definition xfa n : gd true n (fun fl => operation_definition fl xfa).
+Proof. unfold operation_definition. gd_tac. Qed.
+#[export] Hint Resolve gd_operation_definition : gd.
+Lemma gd_type_condition n : gd true n (fun fl => type_condition fl).
+Proof. unfold type_condition. gd_tac. Qed.
+#[export] Hint Resolve gd_type_condition : gd.
+Lemma gd_fragment_definition xfa n : gd true n (fun fl => fragment_definition fl xfa).
+Proof. unfold fragment_definition. gd_tac. Qed.
+#[export] Hint Resolve gd_fragment_definition : gd.
+
+(* ---------- type system ---------- *)
+Lemma gd_operation_type_definition n : gd true n (fun fl => operation_type_definition fl).
+Proof. unfold operation_type_definition. gd_tac. Qed.
+#[export] Hint Resolve gd_operation_type_definition : gd.
+Lemma gd_schema_definition n : gd true n (fun fl => schema_definition fl).
+Proof. unfold schema_definition. gd_tac. Qed.
+#[export] Hint Resolve gd_schema_definition : gd.
+Lemma gd_scalar_type_definition n : gd true n (fun fl => scalar_type_definition fl).
+Proof. unfold scalar_type_definition. gd_tac. Qed.
+#[export] Hint Resolve gd_scalar_type_definition : gd.
+Lemma gd_implements_interfaces n : gd false n (fun fl => implements_interfaces fl).
+Proof. unfold implements_interfaces. gd_tac. Qed.
+#[export] Hint Resolve gd_implements_interfaces : gd.
+Lemma gd_input_value_def n : gd true n (fun fl => input_value_def fl).
+Proof. unfold input_value_def. gd_tac. Qed.
+#[export] Hint Resolve gd_input_value_def : gd.
+Lemma gd_argument_defs n : gd false n (fun fl => argument_defs fl).
+Proof. unfold argument_defs. gd_tac. Qed.
+#[export] Hint Resolve gd_argument_defs : gd.
+Lemma gd_input_fields_definition n : gd false n (fun fl => input_fields_definition fl).
+Proof. unfold input_fields_definition. gd_tac. Qed.
+#[export] Hint Resolve gd_input_fields_definition : gd.
+Lemma gd_field_definition n : gd true n (fun fl => field_definition fl).
+Proof. unfold field_definition. gd_tac. Qed.
+#[export] Hint Resolve gd_field_definition : gd.
+Lemma gd_fields_definition n : gd false n (fun fl => fields_definition fl).
+Proof. unfold fields_definition. gd_tac. Qed.
+#[export] Hint Resolve gd_fields_definition : gd.
+Lemma gd_object_type_definition n : gd true n (fun fl => object_type_definition fl).
+Proof. unfold object_type_definition. gd_tac. Qed.
+#[export] Hint Resolve gd_object_type_definition : gd.
+Lemma gd_interface_type_definition n : gd true n (fun fl => interface_type_definition fl).
+Proof. unfold interface_type_definition. gd_tac. Qed.
+#[export] Hint Resolve gd_interface_type_definition : gd.
+Lemma gd_union_member_types n : gd false n (fun fl => union_member_types fl).
+Proof. unfold union_member_types. gd_tac. Qed.
+#[export] Hint Resolve gd_union_member_types : gd.
+Lemma gd_union_type_definition n : gd true n (fun fl => union_type_definition fl).
+Proof. unfold union_type_definition. gd_tac. Qed.
+#[export] Hint Resolve gd_union_type_definition : gd.
+Lemma gd_enum_value_name n : gd true n (fun fl => enum_value_name fl).
+Proof. unfold enum_value_name. gd_tac. Qed.
+#[export] Hint Resolve gd_enum_value_name : gd.
+Lemma gd_enum_value_definition n : gd true n (fun fl => enum_value_definition fl).
+Proof. unfold enum_value_definition. gd_tac. Qed.
+#[export] Hint Resolve gd_enum_value_definition : gd.
+Lemma gd_enum_values_definition n : gd false n (fun fl => enum_values_definition fl).
+Proof. unfold enum_values_definition. gd_tac. Qed.
+#[export] Hint Resolve gd_enum_values_definition : gd.
+Lemma gd_enum_type_definition n : gd true n (fun fl => enum_type_definition fl).
+Proof. unfold enum_type_definition. gd_tac. Qed.
+#[export] Hint Resolve gd_enum_type_definition : gd.
+Lemma gd_input_object_type_definition n : gd true n (fun fl => input_object_type_definition fl).
+Proof. unfold input_object_type_definition. gd_tac. Qed.
+#[export] Hint Resolve gd_input_object_type_definition : gd.
+Lemma gd_directive_location n : gd true n (fun fl => directive_location fl).
+Proof. unfold directive_location. gd_tac. Qed.
+#[export] Hint Resolve gd_directive_location : gd.
+Lemma gd_directive_definition xdd n : gd true n (fun fl => directive_definition fl xdd).
+Proof. unfold directive_definition. gd_tac. Qed.
+#[export] Hint Resolve gd_directive_definition : gd.
+
+(* ---------- extensions ---------- *)
+Lemma gd_schema_extension n : gd true n (fun fl => schema_extension fl).
+Proof. unfold schema_extension. gd_tac. Qed.
+#[export] Hint Resolve gd_schema_extension : gd.
+Lemma gd_scalar_type_extension n : gd true n (fun fl => scalar_type_extension fl).
+Proof. unfold scalar_type_extension. gd_tac. Qed.
+#[export] Hint Resolve gd_scalar_type_extension : gd.
+Lemma gd_object_type_extension n : gd true n (fun fl => object_type_extension fl).
+Proof. unfold object_type_extension. gd_tac. Qed.
+#[export] Hint Resolve gd_object_type_extension : gd.
+Lemma gd_interface_type_extension n : gd true n (fun fl => interface_type_extension fl).
+Proof. unfold interface_type_extension. gd_tac. Qed.
+#[export] Hint Resolve gd_interface_type_extension : gd.
+Lemma gd_union_type_extension n : gd true n (fun fl => union_type_extension fl).
+Proof. unfold union_type_extension. gd_tac. Qed.
+#[export] Hint Resolve gd_union_type_extension : gd.
+Lemma gd_enum_type_extension n : gd true n (fun fl => enum_type_extension fl).
+Proof. unfold enum_type_extension. gd_tac. Qed.
+#[export] Hint Resolve gd_enum_type_extension : gd.
+Lemma gd_input_object_type_extension n : gd true n (fun fl => input_object_type_extension fl).
+Proof. unfold input_object_type_extension. gd_tac. Qed.
+#[export] Hint Resolve gd_input_object_type_extension : gd.
+Lemma gd_directive_definition_extension n : gd true n (fun fl => directive_definition_extension fl).
+Proof. unfold directive_definition_extension. gd_tac. Qed.
+#[export] Hint Resolve gd_directive_definition_extension : gd.
+Lemma gd_type_system_extension xdd n : gd true n (fun fl => type_system_extension fl xdd).
+Proof. unfold type_system_extension. gd_tac. Qed.
+#[export] Hint Resolve gd_type_system_extension : gd.
+
+(* ---------- definitions, entry points ---------- *)
+Lemma gd_definition xfa xdd n : gd true n (fun fl => definition fl xfa xdd).
+Proof. unfold definition. gd_tac. Qed.
+#[export] Hint Resolve gd_definition : gd.
+Lemma gd_document xfa xdd n : gd true n (fun fl => document fl xfa xdd).
+Proof. unfold document. gd_tac. Qed.
+Lemma gd_value_entry c n : gd true n (fun fl => value_entry fl c).
+Proof. unfold value_entry, enter. gd_tac. Qed.
+Lemma gd_type_entry n : gd true n (fun fl => type_entry fl).
+Proof. unfold type_entry, enter. gd_tac. Qed.
+Lemma gd_schema_coordinate n : gd true n (fun fl => schema_coordinate fl).
+Proof. unfold schema_coordinate. gd_tac. Qed.
+#[export] Hint Resolve gd_schema_coordinate : gd.
+Lemma gd_coordinate_entry n : gd true n (fun fl => coordinate_entry fl).
+Proof. unfold coordinate_entry, enter. gd_tac. Qed.
+
+Theorem gd_core e xfa xdd n : gd true n (fun fl => core e fl xfa xdd).
+Proof.
+  destruct e; cbn [core].
+  - apply gd_document.
+  - apply gd_value_entry.
+  - apply gd_value_entry.
+  - apply gd_type_entry.
+  - apply gd_coordinate_entry.
+Qed.
